@@ -24,16 +24,19 @@ fn holds(cls: &[Cl], a: u32) -> bool {
     cls.iter().all(|cl| cl.iter().any(|(v, p)| ((a >> v) & 1 == 1) == *p))
 }
 
-/// residual formula: per (normalised, non-tautological) clause not yet satisfied, its unassigned literals
-fn residual(norm: &[Cl], m: &[Option<bool>]) -> Vec<(usize, Cl)> {
-    norm.iter().enumerate()
-        .filter(|(_, cl)| !cl.iter().any(|(v, p)| m[*v] == Some(*p)))
-        .map(|(i, cl)| (i, cl.iter().filter(|(v, _)| m[*v].is_none()).cloned().collect()))
-        .collect()
+/// residual formula, as a SET of clauses: the (normalised, non-tautological) clauses not yet satisfied, each restricted
+/// to its unassigned literals (clause positions are deliberately forgotten: the property speaks of the formula)
+fn residual(norm: &[Cl], m: &[Option<bool>]) -> Vec<Cl> {
+    let mut r: Vec<Cl> = norm.iter()
+        .filter(|cl| !cl.iter().any(|(v, p)| m[*v] == Some(*p)))
+        .map(|cl| cl.iter().filter(|(v, _)| m[*v].is_none()).cloned().collect())
+        .collect();
+    r.sort(); r.dedup();
+    r
 }
 
 fn check_state(what: &str, s: &SATSolver, cls: &[Cl], norm: &[Cl], n: usize, m: &[Option<bool>], decisions: &[(usize, bool)],
-               seen: &mut Vec<(u128, Vec<(usize, Cl)>, Vec<Option<bool>>)>) -> CaseResult {
+               seen: &mut Vec<(u128, Vec<Cl>, Vec<Option<bool>>)>) -> CaseResult {
     // the reconstructed model and is_set agree
     for v in 0..n {
         if s.is_set(VarLabel::new(v as u64)) != m[v].is_some() {
@@ -75,6 +78,36 @@ fn check_state(what: &str, s: &SATSolver, cls: &[Cl], norm: &[Cl], n: usize, m: 
     Ok(())
 }
 
+/// every partial assignment reachable by deciding variables in increasing order (decide, recurse, pop), each state checked
+fn dfs(s: &mut SATSolver, cls: &[Cl], norm: &[Cl], n: usize, m: &mut Vec<Option<bool>>, decisions: &mut Vec<(usize, bool)>, from: usize,
+       seen: &mut Vec<(u128, Vec<Cl>, Vec<Option<bool>>)>) -> CaseResult {
+    for v in from..n {
+        if m[v].is_some() { continue; }
+        for p in [true, false] {
+            let (m0, h0, sat0) = (m.clone(), s.cur_hash(), s.is_sat());
+            match s.decide(Literal::new(VarLabel::new(v as u64), p)) {
+                DecisionResult::UNSAT => {
+                    decisions.push((v, p));
+                    let ext = (0..(1u32 << n)).any(|a| holds(cls, a) && decisions.iter().all(|(v, p)| ((a >> v) & 1 == 1) == *p));
+                    decisions.pop();
+                    if ext { return Err(format!("walk: decide({v}={p}) after {decisions:?}: UNSAT reported but a model extends the decisions")); }
+                }
+                _ => {
+                    for l in s.difference_iter() { m[l.label().value_usize()] = Some(l.polarity()); }
+                    decisions.push((v, p));
+                    check_state(&format!("walk after {decisions:?}"), s, cls, norm, n, m, decisions, seen)?;
+                    dfs(s, cls, norm, n, m, decisions, v + 1, seen)?;
+                    decisions.pop();
+                    s.pop();
+                    *m = m0;
+                    if s.cur_hash() != h0 || s.is_sat() != sat0 { return Err(format!("walk: pop after {decisions:?} + ({v}={p}) does not restore the hash / satisfied flag")); }
+                }
+            }
+        }
+    }
+    Ok(())
+}
+
 pub fn run(c: &Value) -> CaseResult {
     let cls = parse_cnf(c);
     let lits: Vec<Vec<Literal>> = cls.iter().map(|cl| cl.iter().map(|(v, p)| Literal::new(VarLabel::new(*v as u64), *p)).collect()).collect();
@@ -97,6 +130,9 @@ pub fn run(c: &Value) -> CaseResult {
     let mut decisions: Vec<(usize, bool)> = vec![];
     let mut seen = vec![];
     check_state("after new", &s, &cls, &norm, n, &m, &decisions, &mut seen)?;
+    if c["walk"].as_bool().unwrap_or(false) {
+        return dfs(&mut s, &cls, &norm, n, &mut m, &mut decisions, 0, &mut seen);
+    }
     // stack of (model, hash, is_sat) before each successful decide
     let mut stack: Vec<(Vec<Option<bool>>, u128, bool)> = vec![];
     for (k, op) in c["ops"].as_array().cloned().unwrap_or_default().iter().enumerate() {
@@ -180,6 +216,42 @@ pub fn candidates(seed: u64) -> Vec<Value> {
                     out.push(json!({"case": "unitprop", "cnf": [cl.clone(), [4, -4, 1]], "ops": ops}));
                 }
             }}
+        }
+    }
+    // exhaustive walks (every partial assignment; all pairs of visited states compared for the hash clause) over
+    // uniform formulas: k clauses of w literals over n variables, all-positive and mixed polarities
+    {
+        let mut s3 = seed.wrapping_add(99173);
+        let mut nx3 = |n: u64| { s3 = s3.wrapping_mul(6364136223846793005).wrapping_add(1442695040888963407); (s3 >> 33) % n };
+        // the 2-regular 'square' designs: clauses {a,c,d},{b,c,e},{a,e,f},{b,d,f} under every labelling would be too many; take
+        // the canonical one and 40 random relabellings / polarity patterns
+        let base: [[usize; 3]; 4] = [[0, 2, 3], [1, 2, 4], [0, 4, 5], [1, 3, 5]];
+        for t in 0..40 {
+            let mut perm: Vec<usize> = (0..6).collect();
+            if t > 0 { for i in (1..6).rev() { let j = nx3(i as u64 + 1) as usize; perm.swap(i, j); } }
+            let flip: Vec<bool> = (0..6).map(|_| t > 0 && nx3(3) == 0).collect();
+            let cnf: Vec<Vec<i64>> = base.iter().map(|cl| cl.iter().map(|v| { let u = perm[*v]; if flip[u] { -(u as i64 + 1) } else { u as i64 + 1 } }).collect()).collect();
+            out.push(json!({"case": "unitprop", "cnf": cnf, "walk": true}));
+        }
+        // regular formulas: every variable occurs exactly twice (random configuration: shuffle the multiset of occurrences
+        // and cut it into clauses of 3 / 2 literals) -- states that differ in WHICH clauses are satisfied can then remove the
+        // same number of occurrences of every literal
+        for t in 0..120 {
+            let n = if t % 2 == 0 { 6usize } else { 4 + nx3(3) as usize };
+            let w = if t % 4 == 3 { 2usize } else { 3 };
+            let mut occ: Vec<usize> = (0..n).chain(0..n).collect();
+            for i in (1..occ.len()).rev() { let j = nx3(i as u64 + 1) as usize; occ.swap(i, j); }
+            let flip: Vec<bool> = (0..n).map(|_| nx3(4) == 0).collect();
+            let cnf: Vec<Vec<i64>> = occ.chunks(w).filter(|c| c.len() == w).map(|c| c.iter().map(|u| if flip[*u] { -(*u as i64 + 1) } else { *u as i64 + 1 }).collect()).collect();
+            out.push(json!({"case": "unitprop", "cnf": cnf, "walk": true}));
+        }
+        for _ in 0..160 {
+            let n = 4 + nx3(3) as i64;      // 4..6 variables
+            let k = 3 + nx3(3);              // 3..5 clauses
+            let w = 2 + nx3(2);              // 2..3 literals
+            let positive = nx3(2) == 0;
+            let cnf: Vec<Vec<i64>> = (0..k).map(|_| (0..w).map(|_| { let v = 1 + nx3(n as u64) as i64; if positive || nx3(2) == 0 { v } else { -v } }).collect()).collect();
+            out.push(json!({"case": "unitprop", "cnf": cnf, "walk": true}));
         }
     }
     let mut s = seed.wrapping_add(4242);
